@@ -15,6 +15,7 @@ SPEC = {
     "min_classes": 200,
     "required_classes": ["gcd:u64:*", "gcd:i8:*", "log2i:u64:bit63", "log2i:u8:bit7", "log2i:i16:bit14", "random_int:*",
                          "random_data:>8192", "v2:*", "v3:*", "v4:*", "matrix:int:*", "matrix:dominant:*", "log2i:ulonglong:bit63", "log2i:longlong:bit62",
-                         "vector2d:float:eq:*", "vector4d:float:*"],
+                         "vector2d:float:eq:*", "vector4d:float:*", "matrix:dominant:style3", "matrix:dominant:style4",
+                         "random_data:signal-storm:32MiB"],
     "assumptions": ASSUME_COMMON + ["random_data 'every position rewritten' monitor has a 256^-8 per-position false-alarm probability"],
 }
